@@ -1,0 +1,59 @@
+//go:build verif
+
+// Contracts for the verif build tag (comment-only; see /verif/DESIGN.md §4).
+package main
+
+// ---------------------------------------------------------------------------
+// Standalone collector: bounded, ordered window of rendered messages (C20)
+// ---------------------------------------------------------------------------
+
+//@ pure mset(m *entities.Message) *entities.set = m.set.(*entities.set)
+//@ pure relems(r entities.Record) []entities.InfoElementWithValue = r.(*entities.baseRecord).orderedElementList
+//@ // msgOK: a message as the collecting process delivers it: a set of data records or of template records whose
+//@ // elements are well typed (dynamic type matches DataType) and of kinds the decoder supports
+//@ pure cRecOK(r entities.Record) bool = ((is(r, *entities.dataRecord) && r.(*entities.dataRecord) != nil) || (is(r, *entities.templateRecord) && r.(*entities.templateRecord) != nil))
+//@     && (forall j in [0, len(relems(r))): wfElem(relems(r)[j]) && dt(relems(r)[j]) != DateTimeMicroseconds && dt(relems(r)[j]) != DateTimeNanoseconds && 0 <= dt(relems(r)[j]) && dt(relems(r)[j]) <= String)
+//@ pure msgOK(m *entities.Message) bool = m != nil && is(m.set, *entities.set) && mset(m) != nil && (forall i in [0, len(mset(m).records)): cRecOK(mset(m).records[i]))
+
+//@ func addIPFIXMessage(msg) ()
+//@   requires msg:  msgOK(msg)
+//@   requires cap:  len(flowRecords) <= maxFlowRecords && !mutex.held
+//@   ensures  cap:  len(flowRecords) <= maxFlowRecords
+//@   ensures  len:  len(flowRecords) == (old(len(flowRecords)) >= maxFlowRecords ? old(len(flowRecords)) : old(len(flowRecords)) + 1)
+//@   ensures  last: flowRecords[len(flowRecords) - 1] == $lastString
+//@   ensures  window: forall i in [0, len(flowRecords) - 1): flowRecords[i] == old(flowRecords)[i + (old(len(flowRecords)) >= maxFlowRecords ? 1 : 0)]
+//@   ensures  lock: !mutex.held
+//@   callpre fmt.Fprintf value: len(a) == 2 ==> !iserrval(a[1])
+//@   modifies flowRecords, flowRecords[*], mutex.held, $lastString
+//@   replay window
+//@   loop 1 invariant keep: msgOK(msg) && 0 <= $i && flowRecords == old(flowRecords) && !mutex.held && len(flowRecords) <= maxFlowRecords
+//@   loop 2 invariant keep: msgOK(msg) && 0 <= $i && flowRecords == old(flowRecords) && !mutex.held && len(flowRecords) <= maxFlowRecords
+//@   loop 3 invariant keep: msgOK(msg) && 0 <= $i && flowRecords == old(flowRecords) && !mutex.held && len(flowRecords) <= maxFlowRecords
+//@   loop 4 invariant keep: msgOK(msg) && 0 <= $i && flowRecords == old(flowRecords) && !mutex.held && len(flowRecords) <= maxFlowRecords
+
+//@ func resetRecordHandler(w, r) ()
+//@   requires req: r != nil && !isnil(w) && !mutex.held
+//@   ensures  reset: r.Method == "POST" ==> len(flowRecords) == 0 && $httpStatus == 200
+//@   ensures  other: r.Method != "POST" ==> flowRecords == old(flowRecords) && $httpStatus == 405 && $bodyN == old($bodyN)
+//@   ensures  lock: !mutex.held
+//@   modifies flowRecords, mutex.held, $httpStatus, $bodyN, $bodyLast
+//@   replay window
+
+//@ // want: the number of entries a valid query for count asks for
+//@ pure want(n int) int = (n < 0 || n > len(flowRecords)) ? len(flowRecords) : n
+//@ pure badQuery() bool = ($qCount != "" && ($atoiErr || $atoiN < 0)) || ($qFormat != "" && $qFormat != "text" && $qFormat != "json")
+
+//@ func flowRecordHandler(w, r) ()
+//@   requires req: r != nil && r.URL != nil && !isnil(w) && !mutex.held
+//@   ensures  method: r.Method != "GET" ==> $httpStatus == 405 && $bodyN == old($bodyN)
+//@   ensures  refuse: r.Method == "GET" && badQuery() ==> $httpStatus == 400 && $bodyN == old($bodyN)
+//@   ensures  json: r.Method == "GET" && !badQuery() && ($qFormat == "" || $qFormat == "json") ==>
+//@                  len($jsonRecs) == want($qCount == "" ? 0 - 1 : $atoiN)
+//@                  && (forall i in [0, len($jsonRecs)): $jsonRecs[i] == flowRecords[len(flowRecords) - len($jsonRecs) + i])
+//@   ensures  text: r.Method == "GET" && !badQuery() && $qFormat == "text" ==> $bodyN == old($bodyN) + 2 * want($qCount == "" ? 0 - 1 : $atoiN)
+//@   ensures  same: flowRecords == old(flowRecords)
+//@   ensures  lock: !mutex.held
+//@   modifies mutex.held, $httpStatus, $bodyN, $bodyLast, $jsonRecs, $atoiErr, $atoiN
+//@   replay window
+//@   loop 1 invariant cnt: $bodyN == old($bodyN) + 2 * $i && mutex.held && flowRecords == old(flowRecords) && 0 <= $i && $i <= len(records)
+//@   loop 1 invariant recs: len(records) == want($qCount == "" ? 0 - 1 : $atoiN) && format == "text" && r.Method == "GET" && !badQuery() && $qFormat == "text"
